@@ -340,6 +340,20 @@ def session_state(root_pid, scratch_dir):
     return tuple(desc)
 
 
+_UNPRIV = {}
+
+
+def unprivileged_available():
+    """can this sandbox start a process without root's permission override? (probed once, for real)"""
+    if "ok" not in _UNPRIV:
+        try:
+            r = subprocess.run(["setpriv", "--bounding-set", "-dac_override,-dac_read_search,-fowner", "true"], capture_output=True, timeout=20)
+            _UNPRIV["ok"] = (r.returncode == 0)
+        except (OSError, subprocess.SubprocessError):
+            _UNPRIV["ok"] = False
+    return _UNPRIV["ok"]
+
+
 def run_cli(argv, cwd, scratch_dir, env_extra=None, stdin_text=None, timeout=120, mode="fast", **opts):
     """Returns CliResult(exit, signal, stdout, stderr, timed_out, wall)."""
     env = common.clean_env(env_extra)
